@@ -45,6 +45,9 @@ BOUNDS = {
         copy=dict(OmIdx={2, 3, 5}, CurvIdx={1, 2, 4, 5, 9, 11, 12, 13, 14, 15}, HIdx={1, 2, 5, 6, 9}, HMix=True),
         # every representation of either argument with every quantity in every call form; partners by covering design
         dispatch=dict(Quants=ALL_Q, Dts=ALL_DT, Lays=ALL_LAY, MaxLen=3, Pairing="cover"),
+        # lengths at and across the 65536-element block boundaries, every quantity in every array form
+        scale=dict(ScaleLens={65535, 65536, 65537, 131072, 1048576}),
+        threads=dict(nthreads=6, rounds=4, n=120000),
         nrandom=300),
     "thorough": dict(
         ctor=dict(OmIdx=ALL_OM, CurvIdx=ALL_CURV, HIdx=ALL_H, HMix=False),
@@ -52,10 +55,13 @@ BOUNDS = {
                     ZIdx={1, 2, 3, 4, 5, 7, 8, 10, 11, 12, 14, 15, 17}),
         copy=dict(OmIdx=ALL_OM, CurvIdx=ALL_CURV, HIdx=ALL_H, HMix=False),
         dispatch=dict(Quants=ALL_Q, Dts=ALL_DT, Lays=ALL_LAY, MaxLen=3, Pairing="full"),      # the full product
+        scale=dict(ScaleLens={4099, 65521, 65535, 65536, 65537, 131071, 131072, 131073, 196608, 262144, 1048575, 1048576, 1048577,
+                              2097152}),
+        threads=dict(nthreads=8, rounds=12, n=250000),
         nrandom=6000),
 }
 DEFAULTS = dict(OmIdx={1}, CurvIdx={1}, HIdx={1}, HMix=False, ZIdx={1}, ChainLen=3, Quants={"Dc"}, Dts={"f8"}, Lays={"contig"}, MaxLen=1,
-                Pairing="full", DoExport=False,
+                Pairing="full", ScaleLens={3}, NThreads=2, DoExport=False,
                 Deviate=False)
 
 # the three cosmologies the dispatch machine is run on (flat, open, closed)
@@ -239,11 +245,134 @@ def run_copy(item):
     return rec
 
 
-RUNNERS = {"ctor": run_ctor, "scalar": run_scalar, "dispatch": run_dispatch, "copy": run_copy}
+def _u64(a):
+    return np.ascontiguousarray(a, dtype="f8").view("u8")
+
+
+def _scale_args(form, n, shift=0, scal=None):
+    """concrete arguments of an array call of `form` whose array argument(s) tile the 3-entry value table"""
+    sc = scal or lat.SCALAR["float"]
+    def tile(which):
+        base = np.array(lat.VALS["float"][which], dtype="f8")
+        return np.roll(np.tile(base, (n + 2) // 3 + 1), -shift)[:n].copy()
+    if form == "vec":
+        return (tile(0),)
+    if form == "vec1":
+        return (tile(0), float(sc[1]))
+    if form == "vec2":
+        return (float(sc[0]), tile(1))
+    return (tile(0), tile(1))
+
+
+def _slice_args(xs, lo, hi):
+    return tuple(x[lo:hi] if isinstance(x, np.ndarray) else x for x in xs)
+
+
+PART = 4099          # part length of the partition (prime: parts never align with power-of-two blocks)
+
+
+def run_scale(item):
+    i, c = item
+    from esutil.cosmology import Cosmo
+    ck = c.get("ck", i % len(DISPATCH_COSMO))
+    obj = Cosmo(**DISPATCH_COSMO[ck])
+    q, form, n, B = c["q"], c["form"], c["n"], c["block"]
+    f = getattr(obj, q)
+    xs = _scale_args(form, n)
+    obs = {"kind": "rejected", "len": 0, "blocks": [], "parts_eq": False, "samples": [], "err": "none"}
+    info = {}
+    with warnings.catch_warnings():
+        warnings.simplefilter("ignore")
+        with np.errstate(all="ignore"):
+            try:
+                res = f(*xs)
+                if isinstance(res, np.ndarray) and res.ndim >= 1:
+                    obs["kind"] = "array"
+                    bits = _u64(res.ravel())
+                    obs["len"] = int(bits.size)
+                    if bits.size == n:
+                        small = _u64(np.atleast_1d(f(*_slice_args(xs, 0, 3))).ravel())          # the same call on the first period
+                        expect = np.tile(small, (n + 2) // 3)[:n] if small.size == 3 else np.zeros(0, "u8")
+                        for k in range((n + B - 1) // B):
+                            lo, hi = k * B, min(n, (k + 1) * B)
+                            ok = bool(expect.size == n and np.array_equal(bits[lo:hi], expect[lo:hi]))
+                            obs["blocks"].append([lo, hi - lo, ok])
+                            if not ok and "first_bad" not in info:
+                                w = np.nonzero(bits[lo:hi] != expect[lo:hi])[0] if expect.size == n else [0]
+                                info["first_bad"] = int(lo + w[0])
+                                info["n_bad_in_block"] = int(len(w))
+                        parts = [_u64(np.atleast_1d(f(*_slice_args(xs, lo, min(n, lo + PART)))).ravel()) for lo in range(0, n, PART)]
+                        cat = np.concatenate(parts)
+                        obs["parts_eq"] = bool(cat.size == n and np.array_equal(cat, bits))
+                        info["digest"] = [lat.digest(bits), lat.digest(cat)]
+                        vals = res.ravel()
+                        for pos, ia, ib in c["samples"]:
+                            a = (lat.element(FLOATREP, 0, ia),) if form == "vec" else (lat.element(FLOATREP, 0, ia), lat.element(FLOATREP, 1, ib))
+                            obs["samples"].append([pos, ia, ib, _bits(vals[pos - 1]) == _bits(f(*a))])
+                else:
+                    obs["kind"], obs["len"] = "scalar", 1
+            except Exception as e:  # noqa
+                obs = {"kind": "rejected", "len": 0, "blocks": [], "parts_eq": False, "samples": [], "err": type(e).__name__}
+    return {"id": i, "t": "scale", "q": q, "form": form, "n": n, "block": B, "obs": obs, "info": info, "case": dict(c, ck=ck)}
+
+
+FLOATREP = {"cls": "pyfloat", "dt": "float", "lay": "na", "len": 0}
+
+
+def run_threads(item):
+    """several threads call ONE shared object concurrently (barrier start), each with its own scalar argument / its own
+    rotation of the array; every result is compared with the result of the same call made alone (sequentially)"""
+    import threading
+    i, c = item
+    from esutil.cosmology import Cosmo
+    ck = c.get("ck", i % len(DISPATCH_COSMO))
+    obj = Cosmo(**DISPATCH_COSMO[ck])
+    q, form, T, R, n = c["q"], c["form"], c["nthreads"], c["rounds"], c["n"]
+    f = getattr(obj, q)
+    calls = []
+    for t in range(T):
+        sc = (0.125 + 0.125 * t, 3.0 + 0.25 * t)          # thread t's own scalar (e.g. its own lens redshift), dyadic
+        calls.append(_scale_args(form, n, shift=t, scal=sc))
+    mism = [0] * T
+    err = "none"
+    with warnings.catch_warnings():
+        warnings.simplefilter("ignore")
+        with np.errstate(all="ignore"):
+            try:
+                ref = [_u64(np.atleast_1d(f(*xs)).ravel()).copy() for xs in calls]          # sequential answers
+                for _ in range(R):
+                    out = [None] * T
+                    bar = threading.Barrier(T)
+
+                    def work(t):
+                        try:
+                            bar.wait()
+                            with np.errstate(all="ignore"):
+                                out[t] = _u64(np.atleast_1d(f(*calls[t])).ravel())
+                        except Exception as e:  # noqa
+                            out[t] = e
+                    ths = [threading.Thread(target=work, args=(t,)) for t in range(T)]
+                    for th in ths:
+                        th.start()
+                    for th in ths:
+                        th.join()
+                    for t in range(T):
+                        if isinstance(out[t], Exception) or out[t] is None or not np.array_equal(out[t], ref[t]):
+                            mism[t] += 1
+            except Exception as e:  # noqa
+                err = type(e).__name__
+                mism = [R] * T
+    return {"id": i, "t": "threads", "q": q, "form": form, "nthreads": T, "mism": mism, "err": err, "case": dict(c, ck=ck)}
+
+
+RUNNERS = {"ctor": run_ctor, "scalar": run_scalar, "dispatch": run_dispatch, "copy": run_copy, "scale": run_scale,
+           "threads": run_threads}
 TRACE_FIELDS = {"ctor": ("id", "t", "args", "err", "rep"),
                 "scalar": ("id", "t", "args", "a", "b", "err", "rep", "der", "res"),
                 "dispatch": ("id", "t", "q", "sa", "sb", "pairs", "obs"),
-                "copy": ("id", "t", "args", "chain", "err", "rep0", "steps")}
+                "copy": ("id", "t", "args", "chain", "err", "rep0", "steps"),
+                "scale": ("id", "t", "q", "form", "n", "block", "obs"),
+                "threads": ("id", "t", "q", "form", "nthreads", "mism")}
 
 
 def run_any(item):
@@ -254,6 +383,8 @@ def trace_view(r):
     v = {k: r[k] for k in TRACE_FIELDS[r["t"]]}
     if r["t"] == "dispatch":
         v["obs"] = {k: r["obs"][k] for k in ("kind", "len", "eq")}
+    if r["t"] == "scale":
+        v["obs"] = {k: r["obs"][k] for k in ("kind", "len", "blocks", "parts_eq", "samples")}
     return v
 
 
@@ -299,6 +430,12 @@ def signature(r, clause):
         cls = {_shapeclass(r["sa"]), _shapeclass(r["sb"])}        # the most exotic array class involved
         top = next((k for k in _CLASS_ORDER if k in cls), "scalar")
         return "%s|%s|%s" % (r["q"], clause, top)
+    if t == "scale":
+        n, B = r["n"], r["block"]
+        cls = "multiple-of-block" if n % B == 0 else ("below-block" if n < B else "non-multiple")
+        return "%s|%s|%s,%s" % (r["q"], clause, r["form"], cls)
+    if t == "threads":
+        return "%s|%s|%s" % (r["q"], clause, r["form"])
     if t == "copy":
         bad = next(((k, s) for k, s in zip(r["chain"], r["steps"]) if s["err"] != "none" or not s["same_params"]
                     or not s["same_dist"] or s["rep"] != r["rep0"]), None)
@@ -318,7 +455,16 @@ def judge(ctx, recs, what, only_clause=None):
                 continue
             if cl.startswith("harness_"):
                 raise MachineryError("trace module reports a harness inconsistency %s on record %s" % (cl, json.dumps(trace_view(r))[:400]))
-            detail = r.get("info", {}).get(cl) if r["t"] == "scalar" else (r.get("raw") or r.get("obs") or r.get("steps"))
+            if r["t"] == "scalar":
+                detail = r.get("info", {}).get(cl)
+            elif r["t"] == "scale":
+                detail = dict(r["info"], kind=r["obs"]["kind"], len=r["obs"]["len"], parts_eq=r["obs"]["parts_eq"],
+                              bad_blocks=[b[:2] for b in r["obs"]["blocks"] if not b[2]][:8],
+                              bad_samples=[x[0] for x in r["obs"]["samples"] if not x[3]][:8])
+            elif r["t"] == "threads":
+                detail = {"mismatching_rounds_per_thread": r["mism"], "err": r["err"]}
+            else:
+                detail = r.get("raw") or r.get("obs") or r.get("steps")
             ctx.violation(signature(r, cl), "Cosmo.tla clause %s not satisfied by the real code (%s record)" % (cl, r["t"]),
                           dict(r["case"], clause=cl, observed=detail))
     return rejects
@@ -443,12 +589,18 @@ def run(ctx):
     ctx.tlc("CosmoMC.tla", what="dispatch ladder + C loops: MechDispatchRefines",
             cfg_text=cfg(constants=_consts(**B["dispatch"]), next_="NextDispatch", invariants=["MechDispatchRefines", "RepsSound"]),
             workers=W, require=["ChooseQ", "ChooseSA", "ChooseSB", "Classify", "Convert", "Loop", "Finish"], timeout=3000)
+    ctx.tlc("CosmoMC.tla", what="elementwise calls commute with concatenation / block partition (ScaleLaw, small scope)",
+            cfg_text=cfg(constants=_consts(Quants=ALL_Q, **B["scale"]), next_="NextScale", invariants=["ScaleLaw"]),
+            workers=W, require=["ChooseLaw", "ChooseScaleQ", "ChooseScaleN"], timeout=3000)
+    ctx.tlc("CosmoMC.tla", what="3 threads on one shared object, every interleaving of the atomic steps: ThreadsSequential",
+            cfg_text=cfg(constants=_consts(Quants={"sigmacritinv"}, NThreads=3), next_="NextThreads", invariants=["ThreadsSequential"]),
+            workers=W, require=["ChooseThreadsQ", "TStep"], timeout=3000)
     # 1b. the invariants bite: a pickle that drops the explicit omega_l / a loop bound taken from the other array
     r = ctx.tlc("CosmoMC.tla", what="self-test: deviating mechanisms violate the refinement invariants",
                 cfg_text=cfg(constants=_consts(Deviate=True, OmIdx={2}, CurvIdx={1, 5}, HIdx={2}, Quants={"Dc"}, Dts={"f8"}, Lays={"contig"}, MaxLen=2), next_="Next",
-                             invariants=["MechCopyRefines", "MechDispatchRefines"]),
+                             invariants=["MechCopyRefines", "MechDispatchRefines", "ThreadsSequential"]),
                 workers=1, allow_violation=True, coverage=False, continue_=True, timeout=3000)     # 1 worker: report order is deterministic
-    if not {"MechCopyRefines", "MechDispatchRefines"} <= set(r.violated):
+    if not {"MechCopyRefines", "MechDispatchRefines", "ThreadsSequential"} <= set(r.violated):
         raise MachineryError("self-test failed: deviating mechanisms not caught (%s)" % r.violated)
 
     # 2. spec -> code: export every case of the four sub-machines
@@ -456,6 +608,10 @@ def run(ctx):
     scal_cases, idents = export(ctx, "export scalar cases", "NextScalar", "ExportScalar", _consts(**B["scalar"]), "OmIdx")
     copy_cases, _ = export(ctx, "export copy chains", "NextCopy", "ExportCopy", _consts(**B["copy"]), "OmIdx")
     disp_cases, _ = export(ctx, "export dispatch cases", "NextDispatchExport", "ExportDispatch", _consts(**B["dispatch"]), "Quants")
+    scale_cases, _ = export(ctx, "export scale cases", "NextScaleExport", "ExportScale", _consts(Quants=ALL_Q, **B["scale"]))
+    thr_cases, _ = export(ctx, "export concurrency cases", "ChooseThreadsQ", "ExportThreads", _consts(Quants=ALL_Q))
+    scale_cases = sorted(_tag(scale_cases, "scale"), key=lambda c: (-c["n"], c["q"], c["form"]))      # big ones first (load balance)
+    thr_cases = [dict(c, **B["threads"]) for c in sorted(_tag(thr_cases, "threads"), key=lambda c: (c["q"], c["form"]))]
     if not idents:
         raise MachineryError("identity catalogue not exported")
     IDENTS.clear()
@@ -463,13 +619,19 @@ def run(ctx):
     disp_cases = [dict(c, ck=k % len(DISPATCH_COSMO)) for k, c in enumerate(_tag(disp_cases, "dispatch"))]   # flat / open / closed in turn
     # 2b. seeded cases on a finer lattice; TLC derives their exact side
     rnd_cases = derive(ctx, random_cases(ctx.seed, B["nrandom"]), "derive exact values for %d seeded cases" % B["nrandom"])
-    allc = _tag(ctor_cases, "ctor") + _tag(scal_cases, "scalar") + _tag(copy_cases, "copy") + disp_cases + _tag(rnd_cases, "scalar")
+    allc = (scale_cases + _tag(ctor_cases, "ctor") + _tag(scal_cases, "scalar") + _tag(copy_cases, "copy") + disp_cases +
+            _tag(rnd_cases, "scalar"))
     items = list(enumerate(allc, 1))
     ctx.log("executing %d cases (%d ctor, %d scalar, %d copy, %d dispatch, %d seeded)" %
             (len(items), len(ctor_cases), len(scal_cases), len(copy_cases), len(disp_cases), len(rnd_cases)))
     recs = pmap(run_any, items)
+    # concurrency cases run one after the other in this process (their threads need the cores to themselves)
+    thr_items = list(enumerate(thr_cases, len(items) + 1))
+    recs = recs + [run_threads(it) for it in thr_items]
+    ctx.log("executed %d scale cases and %d concurrency cases (%d threads x %d rounds x %d elements)" %
+            (len(scale_cases), len(thr_cases), B["threads"]["nthreads"], B["threads"]["rounds"], B["threads"]["n"]))
     for r in recs:
-        ctx.count({k: v for k, v in r["case"].items() if k not in ("outs", "allowed")})
+        ctx.count({k: v for k, v in r["case"].items() if k not in ("outs", "allowed", "samples")})
     # non-vacuity (spec side): every identity of the catalogue is demanded (or accepted as alternative) by some exported case
     demanded = set()
     for c in allc:
@@ -478,7 +640,7 @@ def run(ctx):
                 demanded.update(o["need"])
     if set(IDENTS) - demanded:
         raise MachineryError("vacuous: identities never demanded by an exported case: %s" % sorted(set(IDENTS) - demanded))
-    for t in ("scalar", "ctor", "copy", "dispatch"):
+    for t in ("scalar", "ctor", "copy", "dispatch", "scale", "threads"):
         r = next(x for x in recs if x["t"] == t)
         ctx.sample({k: v for k, v in trace_view(r).items() if k != "der"})
     # 3. code -> spec
@@ -505,19 +667,29 @@ def run(ctx):
                 "reversed pairs with every applicable identity of Cosmo.tla's catalogue, %d copy/pickle chains of length <= 3, "
                 "%d (quantity, representation of zmin, representation of zmax) dispatch cases (%s of 108 representations: python / numpy "
                 "scalars, lists, tuples, ndarrays f8 f4 i8 i4 >f8 >f4 >i8 x contiguous / strided / reversed / 0-d / Fortran 2-d, lengths 1..3) "
-                "- all exported by TLC - plus %d seeded cases on a finer lattice; a case is distinct by its abstract record" %
+                "%d scale cases (every quantity x array form x lengths %s, judged through the concatenation law), %d concurrency cases "
+                "(every quantity x array form, %d threads x %d rounds on one shared object) - all exported by TLC - plus %d seeded cases "
+                "on a finer lattice; a case is distinct by its abstract record" %
                 (len(ctor_cases), len(scal_cases), len(copy_cases), len(disp_cases),
-                 "covering design" if B["dispatch"]["Pairing"] == "cover" else "full product", len(rnd_cases)))
+                 "covering design" if B["dispatch"]["Pairing"] == "cover" else "full product",
+                 len(scale_cases), sorted(B["scale"]["ScaleLens"]), len(thr_cases), B["threads"]["nthreads"], B["threads"]["rounds"],
+                 len(rnd_cases)))
     ctx.exhaustive = True
     ctx.note(bounds={k: ({kk: sorted(vv) if isinstance(vv, set) else vv for kk, vv in v.items()} if isinstance(v, dict) else v)
                      for k, v in B.items()},
              identities=sorted(IDENTS), worst_relative_residual={k: float("%.3g" % v) for k, v in sorted(worst.items())},
              worst_residual_units={k: "%d %s" % (v, IDENTS[k]["unit"]) for k, v in sorted(worst_units.items())},
-             cases=dict(ctor=len(ctor_cases), scalar=len(scal_cases), copy=len(copy_cases), dispatch=len(disp_cases), seeded=len(rnd_cases)))
+             cases=dict(ctor=len(ctor_cases), scalar=len(scal_cases), copy=len(copy_cases), dispatch=len(disp_cases), seeded=len(rnd_cases),
+                        scale=len(scale_cases), threads=len(thr_cases)))
     ctx.trusted_base = ctx.trusted_base + [
         "vh/cosmolat.py: exact Fraction evaluator of the spec's expression trees; sqrt/sinh/sin/log10/pi to >= 45 digits (decimal, isqrt)",
         "numpy.polynomial.legendre.leggauss as the reference Gauss-Legendre rule, validated on every run by exact monomial moments up to degree 2n-1"]
     ctx.assumptions = [
+        "scale: arrays of 65535 .. 2^20 (2^21) elements tile a 3-entry value table; the large result is judged through the law 'elementwise calls "
+        "commute with concatenation' (checked by TLC on the small scope): block-wise equal to the tiled 3-element result, equal to the "
+        "concatenation of the results on 4099-element parts, and equal to scalar calls at the first / last element of every 65536-block",
+        "concurrency: any mismatch between a concurrent and the sequential result is a violation; absence of mismatches in the rounds run "
+        "proves nothing about thread safety (the interleaving model in TLC covers the mechanism as transcribed, not the compiled code)",
         "parameters and redshifts on rational lattices (tenths / twentieths, integer H0, dyadic or quarter redshifts <= 5); float(Fraction) input error <= 1/2 ulp",
         "E^2(z) is computed by TLC as an exact rational at lattice redshifts; at the quadrature nodes (binary64 numbers) the exact integrand is the spec's expression tree evaluated in exact rational arithmetic (sqrt to 220 bits)",
         "the 'documented fixed-order Gauss-Legendre rule' is read as the rule esutil itself exposes (esutil.integrate.gauleg, decided by C17 to 1e-9): sums are compared to rounding with that rule (or with the mathematically exact rule) and to 1e-9 with the exact rule; the 3e-11 / 4e-10 weight error of gauleg's Newton cut-off is therefore accepted",
@@ -593,12 +765,32 @@ def selftest(ctx, recs, rejects):
         d["steps"][2]["same_dist"] = False
         return i, d, "copy_distances_differ"
 
+    def c_scale_block():
+        i, d = pick("scale", lambda r: r["id"] not in rejects and len(r["obs"]["blocks"]) >= 2)
+        d["obs"]["blocks"][-1][2] = False
+        return i, d, "scale_block_ne_tiled_small_result"
+
+    def c_scale_parts():
+        i, d = pick("scale", lambda r: r["id"] not in rejects)
+        d["obs"]["parts_eq"] = False
+        return i, d, "scale_ne_concatenation_of_parts"
+
+    def c_scale_sample():           # a sample position left out is noticed by the trace module
+        i, d = pick("scale", lambda r: r["id"] not in rejects and len(r["obs"]["samples"]) >= 3)
+        del d["obs"]["samples"][1]
+        return i, d, "harness_samples_mismatch"
+
+    def c_threads():
+        i, d = pick("threads", lambda r: r["id"] not in rejects)
+        d["mism"][-1] = 1
+        return i, d, "concurrent_ne_sequential"
+
     def c_good():
         i, g = pick("scalar", lambda r: ok(r, "da"))
         return i, g, None
 
     plan = []
-    for mk in (c_ctor, c_da, c_dl, c_gt, c_eds, c_gl5, c_gl5alt, c_elem, c_len, c_copy, c_good):
+    for mk in (c_ctor, c_da, c_dl, c_gt, c_eds, c_gl5, c_gl5alt, c_elem, c_len, c_copy, c_scale_block, c_scale_parts, c_scale_sample, c_threads, c_good):
         try:
             plan.append(mk())
         except _Skip:
